@@ -319,6 +319,19 @@ def drv_assume(case):
             r = m.assume(dict(Df))
             kept.append((r, proj.node(r, tok)))
         out.append({"op": "results_stable", "first": [p for _, p in kept], "later": [proj.node(r, tok) for r, _ in kept]})
+    # one model, ONE dictionary object that is extended / updated in place between the calls (leaf ids only): every call answers for
+    # what the dictionary holds at that moment, like a fresh model asked with a fresh dictionary
+    ldicts = [D for D in _dict_options(m0, rng, 2, 40, compound_opts=()) if D and all(i in {v.id for v in lv} for i in D)][:5]
+    if len(ldicts) >= 2:
+        m = _mk(case)
+        shared, got, want = {}, [], []
+        for k, D in enumerate(ldicts):
+            Df = {i: _as_form(o, k, puan) for i, o in D.items()}
+            if k % 2: shared.clear()
+            shared.update(Df)
+            got.append(proj.node(m.assume(shared), proj.Tok()))
+            want.append(proj.node(_mk(case).assume(dict(shared)), proj.Tok()))
+        out.append({"op": "results_stable", "first": want, "later": got, "shared_dict": True})
     return out
 
 def drv_reduce(case):
@@ -355,8 +368,13 @@ def drv_errors(case):
     if proj.is_var(m): return []
     tok = proj.Tok()
     errs = m.errors()
-    return [{"op": "errors", "model": proj.node(m, tok), "errs": sorted({str(getattr(x, "value", x)) for x in errs}),
-             "after": proj.node(m, tok)}]
+    out = [{"op": "errors", "model": proj.node(m, tok), "errs": sorted({str(getattr(x, "value", x)) for x in errs}),
+            "after": proj.node(m, tok)}]
+    if case.get("k", 0) % 4 == 0 or case.get("src") == "handmade":
+        errs2 = m.errors()                 # validation of an already validated object
+        out.append({"op": "errors", "model": proj.node(m, tok), "errs": sorted({str(getattr(x, "value", x)) for x in errs2}),
+                    "after": proj.node(m, tok), "again": True})
+    return out
 
 # ----------------------------------------------------------------------------- C04
 def drv_build(case):
@@ -537,6 +555,13 @@ def drv_b64(case):
             Qd = pnd.ge_polyhedron_config.from_b64(sd)
             out.append({"op": "b64poly", "p_before": proj.cfgpoly(Pd, tok), "p_after": proj.cfgpoly(Qd, tok),
                         "p_again": proj.cfgpoly(pnd.ge_polyhedron_config.from_b64(sd), tok), "sel_before": [], "sel_after": [], "dtype": str(numpy.dtype(dt))})
+            # asked once, then edited in place, then packed: the polyhedron and its unpacked copy answer alike
+            sel(Pd)
+            if M.size and int(M[0, -1]) + 1 <= numpy.iinfo(dt).max:
+                Pd[0, -1] += 1
+                Qe = pnd.ge_polyhedron_config.from_b64(Pd.to_b64())
+                out.append({"op": "b64poly", "p_before": proj.cfgpoly(Pd, tok), "p_after": proj.cfgpoly(Qe, tok), "p_again": proj.cfgpoly(Qe, tok),
+                            "sel_before": sel(Pd), "sel_after": sel(Qe), "dtype": str(numpy.dtype(dt)), "edited": True})
             break
     return out
 
@@ -620,6 +645,16 @@ def drv_tighten(case):
         for c in base["cols"]: size *= c["hi"] - c["lo"] + 1
         out.append(dict(base, op="tighten", round=rnd, order=order, tight=res["tight"], rowb=res["rowb"], colb=res["colb"],
                         ncomb=res["ncomb"], after=_pp(P, tok), model=base, wide=size > 3000))
+        if rnd == 0 and k % 3 == 0 and not case.get("bounds_dtype"):
+            # between the two rounds a variable's Bounds object is edited in place: the second round is about the new box
+            for v in list(P.variables)[1:]:
+                if int(v.bounds.upper) > int(v.bounds.lower):
+                    try:
+                        v.bounds.upper = int(v.bounds.upper) - 1
+                    except Exception:
+                        break
+                    base = _pp(P, tok)
+                    break
     return out
 
 def _nest(a):
@@ -657,6 +692,13 @@ def drv_classify(case):
         for j, Q in enumerate(derived):
             qb = _pp(pnd.ge_polyhedron(numpy.asarray(Q), variables=list(P.variables)), tok)
             classify(Q, qb, case["points"][j % len(case["points"])], j + case.get("k", 0))
+        # the queried polyhedron itself, edited in place afterwards: it answers for what it is now
+        v = int(numpy.asarray(P)[0, -1]) + 1
+        if narrow is None or v <= numpy.iinfo(narrow).max:
+            P[0, -1] += 1
+            pb = _pp(P, tok)
+            for k, pts in enumerate(case["points"]):
+                classify(P, pb, pts, k + 1 + case.get("k", 0))
     return out
 
 def _real_id(x):
@@ -731,10 +773,12 @@ def drv_bridge(case):
         mat = [list(r) for r in mat]; mat[0][1] += 1
         A, b = P.A, P.b
         lA, lb = P.to_linalg()
+        a_vars = [[tok(v.id) for v in getattr(X, "variables", [])] for X in (A, lA)]
         out.append({"op": "split_Ab", "matrix": mat, "vars": [x["id"] for x in pv], "index": [tok("r1"), tok("r2")],
                     "A": _nest(numpy.asarray(A).tolist()), "b": [proj.I(x) for x in numpy.asarray(b).tolist()],
                     "A_vars": [tok(v.id) for v in list(A.variables)], "A_index": [tok(v.id) for v in list(A.index)],
-                    "linalg_A": _nest(numpy.asarray(lA).tolist()), "linalg_b": [proj.I(x) for x in numpy.asarray(lb).tolist()]})
+                    "linalg_A": _nest(numpy.asarray(lA).tolist()), "linalg_b": [proj.I(x) for x in numpy.asarray(lb).tolist()],
+                    "linalg_A_vars": a_vars[1]})
     return out
 
 # ============================================================================= priorities, objectives, solver bridge (C13-C15)
@@ -743,7 +787,11 @@ METHODS = ["first", "last", "min", "max", "prio", "rank", "shadow"]
 def drv_compress(case):
     import numpy, puan.ndarray as pnd
     x, kind = case["x"], case["kind"]
-    arr = pnd.integer_ndarray(numpy.array(x, dtype=numpy.int64))
+    base = numpy.array(x, dtype=numpy.int64)
+    lay = case.get("layout", "C")             # the same logical array in another memory layout
+    if lay == "T" and base.ndim == 2: base = numpy.ascontiguousarray(base.T).T
+    if lay == "F" and base.ndim >= 2: base = numpy.asfortranarray(base)
+    arr = pnd.integer_ndarray(base)
     axis = {"2d0": 0, "2d1": 1, "flat": None, "3d0": 0}[kind]
     runs = []
     big = bool(numpy.abs(numpy.asarray(x, dtype=object)).max() >= 2 ** 31) if numpy.asarray(x).size else False
@@ -793,19 +841,32 @@ def drv_select(case):
     tok = proj.Tok()
     pm = proj.node(m, tok)
     out = []
-    for prios in case["prios_list"]:
-      for mode in case.get("solvers", ["capture", "exact", "none", "raise", "mixed"]):
-        for only_leafs in case.get("leaf_opts", (False, True)):
+    import numpy as _np
+    runs = [(None, prios, mode, only_leafs) for prios in case["prios_list"] for mode in case.get("solvers", ["capture", "exact", "none", "raise", "mixed"])
+            for only_leafs in case.get("leaf_opts", (False, True))]
+    # the configurator's polyhedron stored as int8 (as from_b64 or a user may have it) serves requests with several priority levels
+    try:
+        P0_ = m.ge_polyhedron
+        M_ = _np.asarray(P0_)
+        lids_ = [v.id for v in proj.leaves(m)]
+        if M_.size and M_.min() >= -128 and M_.max() <= 127 and len(lids_) >= 2:
+            P8 = pnd.ge_polyhedron_config(M_.astype(_np.int8), default_prio_vector=_np.array(P0_.default_prio_vector), variables=list(P0_.variables),
+                                          index=list(P0_.index), dtype=_np.int8)
+            lv3 = {lids_[0]: 3, lids_[1]: -2, lids_[-1]: 1} if len(lids_) > 2 else {lids_[0]: 3, lids_[1]: -2}
+            runs += [(P8, [lv3], "capture", False), (P8, [{lids_[-1]: 4, lids_[0]: -3}, {}], "capture", False)]
+    except BaseException:
+        pass
+    for narrow, prios, mode, only_leafs in runs:
+        if True:
             if mode == "raise" and only_leafs: continue
             cfg = m                                   # the SAME configurator object serves every request (history)
-            direct = proj.cfgpoly(cfg.ge_polyhedron, tok)
+            direct = proj.cfgpoly(cfg.ge_polyhedron if narrow is None else narrow, tok)
             if mode == "exact" and _box_of_cols(direct["cols"]) > (1 << 12): continue
             s = solvers.Capture(mode)
             exc, reported = "", []
             try:
-                import numpy as _np
                 np_prios = [{k: (_np.int64(v) if (j + len(p)) % 2 else int(v)) for k, v in p.items()} for j, p in enumerate(prios)]
-                res = list(cfg.select(*np_prios, solver=s, only_leafs=only_leafs))
+                res = list(cfg.select(*np_prios, solver=s, only_leafs=only_leafs)) if narrow is None else list(narrow.select(*np_prios, solver=s))
                 reported = [[[tok(k), proj.I(v)] for k, v in r.items()] if isinstance(r, dict) else [[tok(k), proj.I(v)] for k, v in r[0].items()] for r in res]
             except Exception as ex:
                 exc = type(ex).__name__
@@ -827,7 +888,7 @@ def drv_select(case):
                         "prios": [[[tok(k), proj.I(v)] for k, v in p.items()] for p in prios], "solver": mode, "only_leafs": only_leafs,
                         "called": called, "received": rc, "direct": {"rows": direct["rows"], "cols": direct["cols"], "dpv": direct["dpv"]},
                         "returned": returned, "reported": reported, "exc": exc, "enum": enum, "spec_ok": bool(case.get("spec_ok", True)),
-                        "after": proj.node(m, tok)})
+                        "after": proj.node(m, tok), "narrow": narrow is not None})
     return out
 
 def drv_solve(case):
